@@ -41,6 +41,8 @@ CAND = {
  "kbank3": ["KB1", "B1"], "klva3": ["KB1.liq_auth"], "kvliq3": ["KB1.liq"], "kobl3": ["KB1.obl"], "kres3": ["KR1"], "kmarket": ["KM2"],
  "kprog": ["prog.unknown"], "fprog": ["prog.unknown"], "sysrent": ["sysvar.ixs"],
  "kmint": ["M2"], "kres_bad": ["B1", "KB1.obl"], "kobl_pda": ["KB1.obl"],
+ # Drift integration (stand-in venue)
+ "dbank": ["DB2", "B1"], "dlva": ["DB2.liq_auth"], "dvliq": ["DB2.liq", "B1.liq"], "duser": ["DB2.duser"], "dstats": ["DB2.dstats"], "dmkt": ["DM2"],
  "signer": [], "free": [], "payer": [], "new": [],
 }
 
@@ -135,6 +137,17 @@ OPS = {
                    slots=S(("group","group"),("admin","signer"),("fee_payer","payer"),("bank_mint","kmint"),("bank","new"),("integration_acc_1","kres_bad"),("integration_acc_2","kobl_pda"),
                            ("liquidity_vault_authority","free"),("liquidity_vault","free"),("insurance_vault_authority","free"),("insurance_vault","free"),("fee_vault_authority","free"),("fee_vault","free"),
                            ("token_program","tprog"),("system_program","sprog"))),
+ # ---- Drift integration instructions (against the stand-in venue)
+ "drift_deposit": dict(role="authority", base={"op":"drift_deposit","acct":"A7","bank":"DB1","amount":10},
+                   slots=S(("group","group"),("marginfi_account","acct"),("authority","signer"),("bank","dbank"),("drift_oracle","free"),("liquidity_vault_authority","dlva"),
+                           ("liquidity_vault","dvliq"),("signer_token_account","free"),("drift_state","free"),("integration_acc_2","duser"),("integration_acc_3","dstats"),
+                           ("integration_acc_1","dmkt"),("drift_spot_market_vault","free"),("mint","mint"),("drift_program","kprog"),("token_program","tprog"),("system_program","sprog"))),
+ "drift_withdraw": dict(role="authority", base={"op":"drift_withdraw","acct":"A7","bank":"DB1","amount":5},
+                   slots=S(("group","group"),("marginfi_account","acct"),("authority","signer"),("bank","dbank"),("drift_oracle","free"),("liquidity_vault_authority","dlva"),
+                           ("liquidity_vault","dvliq"),("destination_token_account","free"),("drift_state","free"),("integration_acc_2","duser"),("integration_acc_3","dstats"),
+                           ("integration_acc_1","dmkt"),("drift_spot_market_vault","free"),("drift_reward_oracle","free"),("drift_reward_spot_market","free"),("drift_reward_mint","free"),
+                           ("drift_reward_oracle_2","free"),("drift_reward_spot_market_2","free"),("drift_reward_mint_2","free"),("drift_signer","free"),("mint","mint"),
+                           ("drift_program","kprog"),("token_program","tprog"),("system_program","sprog"))),
  # ---- permissionless housekeeping
  "init_liq_record": dict(role="anyone", base={"op":"init_liq_record","acct":"A5"},
                    slots=S(("marginfi_account","free"),("fee_payer","signer"),("liquidation_record","new"),("system_program","sprog"))),
